@@ -378,6 +378,10 @@ func TestC03(t *testing.T) {
 				// special built-in utilities cannot be function names
 				bad = rapid.SampledFrom([]string{"break", "continue", "eval", "exec", "exit", "export", "readonly", "return", "set", "shift", "times", "trap", "unset"}).Draw(rt, "spbuiltin") + "() { a; }"
 			}
+			if rapid.IntRange(0, 3).Draw(rt, "reserved_behind_redir") == 0 {
+				// behind the redirection of a compound command a reserved word is an ordinary word
+				bad = rapid.SampledFrom([]string{"{ { a; } >f }", "if { a; } >f then b; fi", "if a; then { b; } >f fi", "while { a; } >f do b; done", "while a; do { b; } 2>&1 done", "( a ) >f then", "for i in a; do { b; } <f done", "case x in a) { b; } >f esac", "if a; then b; else { c; } >f fi", "{ if a; then b; fi >f }", "{ (a) >f }", "until { a; } >f 2>&1 do b; done", "{ { a; } <<E }\nE\n", "if a; then { b; } >f elif c; then d; fi"}).Draw(rt, "reserved_behind_redir_src")
+			}
 			sep := "; "
 			if lastTop.Kind == gen.KOp {
 				sep = " "
